@@ -168,6 +168,7 @@ class World:
         self.extra_tasks = []    # harness-created tasks (flush/gather/waiters)
         self.evals = 0           # monitor evaluations (vacuity witness)
         self.injected = []       # exception objects raised by harness-owned user code on purpose
+        self.selfret = [None]    # a pool: the next worker to start cancels its own task in that pool and returns at once
         self.unstarted_cancelled_spawners = []   # T3: spawner tasks that were cancelled before their first step
         plog("E %s" % harness)
 
@@ -330,10 +331,24 @@ class World:
                 m()
             w.at_site("wstart")
             rec["left"] = swallow
+            result = None
+            if w.selfret and w.selfret[0] is not None:
+                # this worker cancels its own task and returns at once, without reaching another await
+                pool_, w.selfret[0] = w.selfret[0], None
+                try:
+                    pool_.cancel(rec["id"])
+                    rec["selfret"] = True
+                except PoolException:
+                    pass
+                if rec.get("selfret"):
+                    rec["state"] = "ok"
+                    w.live -= 1
+                    rec["finished_at"] = len(w.cb)
+                    return None
             try:
                 while True:
                     try:
-                        await rec["gate"]
+                        result = await rec["gate"]
                         rec["state"] = "ok"
                         break
                     except asyncio.CancelledError as ce:
@@ -353,6 +368,7 @@ class World:
             finally:
                 w.live -= 1
                 rec["finished_at"] = len(w.cb)
+            return result
 
         fn.__name__ = name
         fn.__qualname__ = name
@@ -374,9 +390,10 @@ class World:
         fn._is_coroutine = asyncio.coroutines._is_coroutine
         return fn
 
-    def release(self, wid):
+    def release(self, wid, value=None):
+        """Let worker wid return `value` (default None)."""
         if 0 <= wid < len(self.W) and not self.W[wid]["gate"].done():
-            self.W[wid]["gate"].set_result(None)
+            self.W[wid]["gate"].set_result(value)
             return True
         return False
 
